@@ -33,6 +33,7 @@ type Rev struct {
 	Info       string // key of the info dict ("" = none)
 	ExtraTrailer Dict
 	TableGapsAsFree bool // classic table: list gaps as free entries in one subsection instead of several subsections
+	ObjStmExtends bool // every object-stream container after the first carries /Extends <previous container> (ISO 32000-1 7.5.7)
 }
 
 // File assembles a PDF file.
@@ -314,6 +315,7 @@ func (f *File) WriteRevision(rv *Rev) {
 		pos := r.Intn(len(items) + 1)
 		items = append(items[:pos], append([]item{{cont: &conts[i]}}, items[pos:]...)...)
 	}
+	prevCont := 0
 	for _, it := range items {
 		if it.top != nil {
 			off := f.writeTop(*it.top, encoded)
@@ -340,6 +342,10 @@ func (f *File) WriteRevision(rv *Rev) {
 		}
 		raw := append(head.Bytes(), sub.Buf.Bytes()...)
 		st := &Stream{D: Dict{{"Type", Name("ObjStm")}, {"N", len(c.objs)}, {"First", head.Len()}}, Raw: raw, Filters: rv.ObjStmFilters, LenMode: "direct"}
+		if rv.ObjStmExtends && prevCont > 0 {
+			st.D = append(st.D, KV{"Extends", RefN{prevCont, 0}})
+		}
+		prevCont = c.num
 		key := fmt.Sprintf("objstm:%d", c.num)
 		encoded[key] = EncodeStream(raw, st.Filters, r)
 		f.Bind(key, c.num, 0)
